@@ -125,38 +125,38 @@ func DiffDigests(want, got map[string]string) []string {
 
 // Config of one end-to-end run.
 type Config struct {
-	Transport   string `json:"transport"` // "mock" (vnet, streams visible on open) | "vquic" (vnet, QUIC visibility, seeded arrival order) | "quic" (real loopback)
-	Conns       int    `json:"conns"`
-	Streams     int    `json:"streams"`
-	ChunkSize   uint32 `json:"chunk"`
-	Resume      bool   `json:"resume"`
-	NoRootDir   bool   `json:"noRootDir"`
-	ScanPaths   bool   `json:"scanPaths"`
-	Seed        int64  `json:"seed"`
-	VerifyTail  uint32 `json:"tail"`
-	Watchdog    time.Duration `json:"-"`
+	Transport  string        `json:"transport"` // "mock" (vnet, streams visible on open) | "vquic" (vnet, QUIC visibility, seeded arrival order) | "quic" (real loopback)
+	Conns      int           `json:"conns"`
+	Streams    int           `json:"streams"`
+	ChunkSize  uint32        `json:"chunk"`
+	Resume     bool          `json:"resume"`
+	NoRootDir  bool          `json:"noRootDir"`
+	ScanPaths  bool          `json:"scanPaths"`
+	Seed       int64         `json:"seed"`
+	VerifyTail uint32        `json:"tail"`
+	Watchdog   time.Duration `json:"-"`
 	// faults (vnet only)
-	Fault       *vnet.FaultSpec `json:"fault,omitempty"`
-	Flip        *vnet.FlipSpec  `json:"flip,omitempty"`
-	CancelSide  string          `json:"cancelSide,omitempty"` // "sender" | "receiver": cancel that side's context ...
-	CancelAfter int64           `json:"cancelAfter,omitempty"` // ... once this many bytes were written by the sender side
+	Fault       *vnet.FaultSpec         `json:"fault,omitempty"`
+	Flip        *vnet.FlipSpec          `json:"flip,omitempty"`
+	CancelSide  string                  `json:"cancelSide,omitempty"`  // "sender" | "receiver": cancel that side's context ...
+	CancelAfter int64                   `json:"cancelAfter,omitempty"` // ... once this many bytes were written by the sender side
 	ResolveFn   func(rel string) string `json:"-"`
-	Tap         func(p *vnet.Pair) `json:"-"` // called with the first vnet pair before the transfer starts
-	AfterScan   func()             `json:"-"` // called after the manifest was built (source-side faults)
+	Tap         func(p *vnet.Pair)      `json:"-"` // called with the first vnet pair before the transfer starts
+	AfterScan   func()                  `json:"-"` // called after the manifest was built (source-side faults)
 }
 
 // Outcome of a run.
 type Outcome struct {
-	SendErr   string   `json:"sendErr"`
-	RecvErr   string   `json:"recvErr"`
-	SendOK    bool     `json:"sendOK"`
-	RecvOK    bool     `json:"recvOK"`
-	Hung      bool     `json:"hung"`
-	HangWhere []string `json:"hangWhere,omitempty"`
-	Diffs     []string `json:"diffs,omitempty"`
-	TreeEqual bool     `json:"treeEqual"`
-	WallMs    int64    `json:"wallMs"`
-	FaultFired bool    `json:"faultFired"`
+	SendErr     string   `json:"sendErr"`
+	RecvErr     string   `json:"recvErr"`
+	SendOK      bool     `json:"sendOK"`
+	RecvOK      bool     `json:"recvOK"`
+	Hung        bool     `json:"hung"`
+	HangWhere   []string `json:"hangWhere,omitempty"`
+	Diffs       []string `json:"diffs,omitempty"`
+	TreeEqual   bool     `json:"treeEqual"`
+	WallMs      int64    `json:"wallMs"`
+	FaultFired  bool     `json:"faultFired"`
 	StreamBytes [][2]int `json:"streamBytes,omitempty"`
 }
 
